@@ -5,6 +5,9 @@
 (*  "index": container type x index kind sequences of length <= 2                                *)
 (*  "logic": operand type pairs (Bool, Array(Bool), Map(Bool), Array(Array(Bool))) x and/or/xor, *)
 (*           at top level, parenthesised inside any(), and negated                               *)
+(*  "quant": any/all x every field x two index steps (none, [1], ["k"], [*]) x wrapper (bare,    *)
+(*           parenthesised, negated, compared with a literal): a bare argument must be a         *)
+(*           boolean array reached without [*]                                                   *)
 (* In-model: the L2 parser's verdict equals the declarative admissibility table (L1) below.      *)
 (* Every entry is emitted with its expected verdict; accepted entries carry expected results.    *)
 EXTENDS WfParser, WfEval, WfJson, Json
@@ -87,12 +90,34 @@ LogicCases == {<<"logic", x, y, o, w>> : x \in 1..Len(Operands), y \in 1..Len(Op
 (* three-operand chains: same operator twice (flattened chain) and mixed operators *)
 Logic3Cases == {<<"logic3", x, y, z, o1, o2>> : x \in 1..Len(Operands), y \in 1..Len(Operands), z \in 1..Len(Operands),
                                                  o1 \in {"and", "or", "xor"}, o2 \in {"and", "or", "xor"}}
-Init == cas \in (IF Mode = "cmp" THEN CmpCases ELSE IF Mode = "index" THEN IdxCases
+(* quantifier arguments *)
+QIdx == << <<>>, <<[k |-> "lb"], TInt1, [k |-> "rb"]>>,
+           <<[k |-> "lb"], [k |-> "bytes", v |-> <<107>>, form |-> "q", txt |-> "\"k\""], [k |-> "rb"]>>,
+           <<[k |-> "lb"], [k |-> "star"], [k |-> "rb"]>> >>
+QuantCases == {<<"quant", q, f, i, j, w>> : q \in {"any", "all"}, f \in 1..Len(Fields), i \in 1..4, j \in 1..4,
+                                             w \in {"bare", "paren", "not", "cmp"}}
+(* L1 typing of a path: one step *)
+StepTy(T, i) == IF i = 1 THEN T
+                ELSE IF T = [k |-> "none"] THEN T
+                ELSE IF i = 2 THEN (IF T.k = "Array" THEN T.e ELSE [k |-> "none"])
+                ELSE IF i = 3 THEN (IF T.k = "Map" THEN T.e ELSE [k |-> "none"])
+                ELSE (IF T.k \in {"Array", "Map"} THEN T.e ELSE [k |-> "none"])
+QuantBareOk(f, i, j) == LET T == StepTy(StepTy(Fields[f].ty, i), j) IN
+                        T = AB /\ i # 4 /\ j # 4 /\ ~(i = 1 /\ j # 1)
+Init == cas \in (IF Mode = "quant" THEN QuantCases ELSE IF Mode = "cmp" THEN CmpCases ELSE IF Mode = "index" THEN IdxCases
                  ELSE IF Mode = "logic" THEN LogicCases ELSE Logic3Cases)
 Next == FALSE /\ UNCHANGED cas
 Spec == Init /\ [][Next]_cas
+QArg == <<Id(Fields[cas[3]].name)>> \o QIdx[cas[4]] \o QIdx[cas[5]]
 Toks ==
-  IF cas[1] = "cmp" THEN <<Id(Fields[cas[2]].name)>> \o Ops[cas[3]][2] \o Rhs[cas[4]][2]
+  IF cas[1] = "quant"
+  THEN <<[k |-> "quant", v |-> cas[2]], [k |-> "lp"]>>
+       \o (IF cas[6] = "bare" THEN QArg
+           ELSE IF cas[6] = "paren" THEN <<[k |-> "lp"]>> \o QArg \o <<[k |-> "rp"]>>
+           ELSE IF cas[6] = "not" THEN <<[k |-> "not", a |-> 1]>> \o QArg
+           ELSE QArg \o <<[k |-> "ord", v |-> "eq", a |-> 1], TInt1>>)
+       \o <<[k |-> "rp"]>>
+  ELSE IF cas[1] = "cmp" THEN <<Id(Fields[cas[2]].name)>> \o Ops[cas[3]][2] \o Rhs[cas[4]][2]
   ELSE IF cas[1] = "index"
        THEN <<Id(Fields[cas[2]].name)>> \o IdxToks[cas[3]] \o (IF cas[4] = 0 THEN <<>> ELSE IdxToks[cas[4]])
             \o <<[k |-> "ord", v |-> "eq", a |-> 1], TInt1>>
@@ -109,6 +134,9 @@ TableIsParser == cas[1] = "cmp" =>
 OperandIsBool(x) == x \in {1, 6}
 ChainIsBoolean == cas[1] = "logic3" =>
    (ParseFilter(Toks, Sch, 128).ok = (OperandIsBool(cas[2]) /\ OperandIsBool(cas[3]) /\ OperandIsBool(cas[4])))
+(* an empty first step followed by a non-empty one is the same text as the one-step path: not a separate case *)
+QuantBare == (cas[1] = "quant" /\ cas[6] = "bare" /\ ~(cas[4] = 1 /\ cas[5] # 1)) =>
+   (ParseFilter(Toks, Sch, 128).ok = QuantBareOk(cas[3], cas[4], cas[5]))
 Vector == LET r == ParseFilter(Toks, Sch, 128) IN
   IF r.ok THEN [ev |-> "filter", sch |-> 1, max |-> 128, ts |-> Toks, ok |-> TRUE, ast |-> AstJson(r.node),
                 runs |-> Strict([n \in 1..Len(Ctxs) |-> [ctx |-> n, out |-> "ok", res |-> EvalFilter(r.node, Ctxs[n], Sch)]]), uses |-> <<>>]
